@@ -82,7 +82,7 @@ def gencfg(ctx, name, ops, args, depth):
 # focused alphabets explored exhaustively deeper than the whole alphabet:
 # (name, ops, argument classes, quick depth (0 = thorough only), thorough depth)
 GROUPS = [
-    ("styles", ["AddStyle", "ModifyStyle", "RemoveStyle", "SetStyle", "AddHeading", "Save", "SaveFile", "Reopen", "OpenForeign", "RenderTemplate"],
+    ("styles", ["AddStyle", "ModifyStyle", "RemoveStyle", "SetStyle", "AddHeading", "Save", "Reopen", "OpenForeign", "RenderTemplate"],
      dict(SMALL, Lv={2}, StyIds={"C1"}, ModIds={"C1", "Heading2"}, RmIds={"C1", "Heading2"}, OnIds={"Heading2"}, Shapes={"plain"},
           HowsC={"replace"}, FreshC={False}), 3, 4),
     # style hierarchies: custom on built-in, custom on custom; removal of a base that styled content depends on indirectly
@@ -146,7 +146,7 @@ def pipeline(ctx, cases_by=None):
         ctx.exhaustive = True
         # (3) seeded random long behaviours over the wide argument classes
         d3 = 10 if q else 16
-        allc += ctx.tlc_gen("Defs_MC.tla", gencfg(ctx, "gen_sim.cfg", ALLOPS, WIDE, d3), "sim", mode="sim", num=6 if q else 20, depth=d3 + 1)
+        allc += ctx.tlc_gen("Defs_MC.tla", gencfg(ctx, "gen_sim.cfg", ALLOPS, WIDE, d3), "sim", mode="sim", num=6 if q else 14, depth=d3 + 1)
         count_ops(cnt, allc)
         # one execution + one judge run over everything (case ids are unique across generators)
         ctx.cases_by_tag["gen"] = {c["id"]: c for c in allc}
